@@ -164,7 +164,11 @@ def check(ctx):
                     if rel == "<" and form[impr[0]] == -1:
                         strict_ok = True
                     elif rel in ("<=",) and form[impr[0]] == -1:
-                        bad = n
+                        # improvement >= positive forcing term still implies a strict improvement
+                        if any("sufficient" in k for k in form if k != impr[0]):
+                            strict_ok = True
+                        else:
+                            bad = n
                     elif form[impr[0]] == 1 and rel in ("<", "<="):
                         bad = n
         stob = any("stobads" in canon(t) or "sto_success" in canon(t) or "certain_good_poll" in canon(t) for t, p in g)
